@@ -282,6 +282,25 @@ fn gen_scenario(seed: u64, index: u64, focus: &str, jitter: bool) -> Scenario {
             }
         }
     }
+    // template "statistics hammer" (free-running mode): one entry that every thread keeps hitting
+    // while another thread keeps reading the statistics; every snapshot must lie within what the
+    // calls made so far allow (no miss for a lookup that hit, no hit lost, nothing negative)
+    if jitter && focus == "C15" && prelude.is_empty() && index % 3 == 0 {
+        if let Some(fi) = (0..fns.len()).find(|i| !fns[*i].d.scope_thread && !fns[*i].d.has_invalidate_on && !fns[*i].d.has_cache_if && !fns[*i].d.is_result && fns[*i].d.ttl.is_none()) {
+            let s0 = fns[fi].slots[0];
+            prelude.push(Op::Call { f: fi, slot: s0, err: false, stale: false, big: false });
+            // (counted where the scenario runs)
+            let hitters = 2 + rng.usize(3);
+            progs = (0..hitters).map(|_| (0..1200).map(|_| Op::Call { f: fi, slot: s0, err: false, stale: false, big: false }).collect()).collect();
+            progs.push((0..1500).map(|_| Op::StatsGet { f: fi }).collect());
+            for h in has_invalidation.iter_mut() {
+                *h = false;
+            }
+            for c in cond_slots.iter_mut() {
+                c.clear();
+            }
+        }
+    }
     let mut cold = vec![false; fns.len()];
     if prelude.is_empty() && matches!(focus, "C17" | "C18") && index % 3 == 2 {
         let ci = rng.usize(fns.len());
@@ -329,7 +348,17 @@ struct GroupRec {
     inv: u64,
     ret: u64,
 }
+/// one reading of a cache's statistics between two stamps
+#[derive(Clone, Debug)]
+struct StatsRec {
+    f: usize,
+    inv: u64,
+    ret: u64,
+    hits: u64,
+    misses: u64,
+}
 struct Shared {
+    stats: Mutex<Vec<StatsRec>>,
     probes: Mutex<Vec<ProbeRec>>,
     groups: Mutex<Vec<GroupRec>>,
     recs: Mutex<Vec<CallRec>>,
@@ -429,7 +458,13 @@ fn exec_prog(t: usize, prog: &[Op], fns: &[(&'static FnDesc, BTreeMap<u32, Strin
                 sh.probes.lock().unwrap().push(ProbeRec { f: *f, ret, keys });
             }
             Op::StatsGet { f } => {
-                let _ = cachelito_core::stats_registry::get(fns[*f].0.reg_name);
+                let inv = vhooks::stamp();
+                let st = cachelito_core::stats_registry::get(fns[*f].0.reg_name);
+                let snap = st.map(|s| (s.hits(), s.misses()));
+                let ret = vhooks::stamp();
+                if let Some((hits, misses)) = snap {
+                    sh.stats.lock().unwrap().push(StatsRec { f: *f, inv, ret, hits, misses });
+                }
             }
             Op::StatsList => {
                 let _ = cachelito_core::stats_registry::list();
@@ -503,7 +538,7 @@ fn run_scenario(rep: &mut Report, sc: &mut Scenario, seed: u64, mode: &str, focu
         cachelito_core::stats_registry::reset(d.reg_name);
         vhooks::take_log();
     }
-    if !sc.prelude.is_empty() {
+    if sc.prelude.iter().any(|o| matches!(o, Op::Advance(_))) {
         rep.count("C18", "expiry_race_scenarios", 1);
         if sc.fns.iter().any(|f| f.d.is_async && f.d.ttl.is_some() && f.d.limit.is_some() && matches!(f.d.policy, "fifo" | "lru")) {
             rep.count("C18", "expiry_race_scenarios_async_fifo_lru_limit", 1);
@@ -526,7 +561,7 @@ fn run_scenario(rep: &mut Report, sc: &mut Scenario, seed: u64, mode: &str, focu
     }
     vhooks::take_log();
     let fnsv: Arc<Vec<(&'static FnDesc, BTreeMap<u32, String>, Vec<u32>)>> = Arc::new(sc.fns.iter().map(|f| (f.d, f.keymap.clone(), f.slots.clone())).collect());
-    let shared = Arc::new(Shared { probes: Mutex::new(vec![]), groups: Mutex::new(vec![]), recs: Mutex::new(vec![]), viol: Mutex::new(vec![]) });
+    let shared = Arc::new(Shared { stats: Mutex::new(vec![]), probes: Mutex::new(vec![]), groups: Mutex::new(vec![]), recs: Mutex::new(vec![]), viol: Mutex::new(vec![]) });
     let nthreads = sc.progs.len();
     let mut progs: Vec<Box<dyn FnOnce() + Send + 'static>> = vec![];
     for (t, p) in sc.progs.iter().enumerate() {
@@ -578,6 +613,7 @@ fn run_scenario(rep: &mut Report, sc: &mut Scenario, seed: u64, mode: &str, focu
     rep.count("C17", "schedules_completed_without_deadlock", 1);
     // ---- quiescence
     let recs = shared.recs.lock().unwrap().clone();
+    let stats_recs = shared.stats.lock().unwrap().clone();
     for (p, sg, what, det) in shared.viol.lock().unwrap().drain(..) {
         rep.violation(&p, &sg, &what, scenario_witness(sc, seed, mode, switch_pm, det));
     }
@@ -621,6 +657,22 @@ fn run_scenario(rep: &mut Report, sc: &mut Scenario, seed: u64, mode: &str, focu
             continue;
         }
         let calls: Vec<&CallRec> = recs.iter().filter(|r| r.f == fi).collect();
+        // C15 while the threads run: a snapshot read between two stamps counts every lookup that
+        // returned before the first and none invoked after the second; a lookup is a miss exactly
+        // if its body ran (functions with invalidate_on aside: a stale hit runs the body too)
+        if !d.has_invalidate_on {
+            for s in stats_recs.iter().filter(|s| s.f == fi) {
+                rep.count("C15", "statistics_snapshots_checked_during_concurrency", 1);
+                let lb_m = calls.iter().filter(|r| r.executed && r.ret < s.inv).count() as u64;
+                let ub_m = calls.iter().filter(|r| r.executed && r.inv < s.ret).count() as u64;
+                let lb_h = calls.iter().filter(|r| !r.executed && r.ret < s.inv).count() as u64;
+                let ub_h = calls.iter().filter(|r| !r.executed && r.inv < s.ret).count() as u64;
+                if s.misses < lb_m || s.misses > ub_m || s.hits < lb_h || s.hits > ub_h {
+                    fail(rep, "C15", "statistics-snapshot-outside-what-the-calls-allow", f, format!("{}: a reader saw hits {} (possible {}..={}) and misses {} (possible {}..={}) while other threads were calling", d.reg_name, s.hits, lb_h, ub_h, s.misses, lb_m, ub_m), json!({"fid": d.fid}));
+                    return Outcome { status: "ok" };
+                }
+            }
+        }
         // C15 conservation
         if let (Some(st), false) = (cachelito_core::stats_registry::get(d.reg_name), d.has_invalidate_on) {
             let execs = calls.iter().filter(|r| r.executed).count() as u64;
